@@ -41,7 +41,7 @@ func init() {
 			s := &C13Spec{Orders: genOrders(r, seed), TapeSeed: mix(seed, "tape"), MaxTrials: 200, MaxFailRate: 1e-9}
 			if r.Chance(0.4) {
 				s.MaxTrials = pick(r, []int{1, 2, 3, 5, 200, 200, 0, -1, 1000})
-				s.MaxFailRate = pick(r, []float64{1e-9, 1e-3, 0.5, 1, 2})
+				s.MaxFailRate = pick(r, []float64{1e-9, 1e-3, 0.5, 1, 2, 0})
 			}
 			switch k := r.Intn(10); {
 			case k < 5:
@@ -52,6 +52,10 @@ func init() {
 					if cc.Length > 64 {
 						cc.Length = pick(r, []int{4, 8, 16})
 					}
+				}
+				if r.Chance(0.004) {
+					// very long passwords with a requirement (counts with exponents beyond 2^15)
+					cc = CharCfg{Length: pick(r, []int{32767, 32768, 40000, 65536, 70000}), Allow: 7, RequireSets: []string{pick(r, []string{"#", "ab", "7"})}}
 				}
 				if r.Chance(0.1) {
 					cc.Length = pick(r, []int{0, -1, -7})
@@ -137,8 +141,8 @@ func ratToFloat(r *big.Rat) float64 {
 func runC13(c *Ctx, si interface{}) {
 	s := si.(*C13Spec)
 	curOrders = s.Orders
-	knobZeroTrials = true
-	defer func() { knobZeroTrials = false }()
+	knobZeroTrials, knobZeroFail = true, true
+	defer func() { knobZeroTrials, knobZeroFail = false, false }()
 	withKnobs(s.MaxTrials, s.MaxFailRate, func() {
 		switch s.Kind {
 		case "char":
@@ -217,6 +221,10 @@ func c13Char(c *Ctx, s *C13Spec) {
 			expect, why = "error", "no string satisfies the requirements"
 		} else {
 			expect, why = refusalExpectation(pf, float64(cfg.Length)*math.Log2(float64(len(m.A))), s.MaxTrials, s.MaxFailRate)
+			if len(m.Req) == 0 && s.MaxTrials >= 1 && s.MaxFailRate >= 0 {
+				// nothing is required: every candidate succeeds, the failure bound is exactly 0
+				expect, why = "ok", "no requirement: failure bound exactly 0"
+			}
 		}
 		if m.Emptied > 0 {
 			// a required set with no non-excluded member requires nothing (C03: "each required set
